@@ -2,6 +2,8 @@
 
 from __future__ import annotations
 
+import os
+
 from .. import judge, kprog, replay
 from ..request import Request, compile_request, has_broadcast_target
 from . import keval
@@ -50,6 +52,21 @@ def confirm(rec, families):
         elif asan["status"] == "compile-error":
             out["confirmed"] = True
             out["where"].append("emitted C does not compile:" + "+".join(fns))
+        try:
+            asl = replay.asan_run_llvm(comp, fns, dec)
+        except Exception as e:  # noqa: BLE001
+            asl = {"status": "generation-error", "stderr": str(e)[:300]}
+        out.setdefault("asan_llvm", []).append({"program": fns, "status": asl["status"], "stderr": asl.get("stderr", "")[-600:]})
+        if asl["status"] in ("sanitizer", "crash", "timeout", "compile-error", "generation-error"):
+            out["confirmed"] = True
+            out["where"].append("llvm-asan:" + "+".join(fns) + ":" + asl["status"])
+        elif asl["status"] == "ok":
+            o = dict(asl["output"])
+            o["vals_length"] = len(o["vals"])
+            probs = judge.judge_output(comp, dec, o, ["canon", "value"])
+            if probs:
+                out["confirmed"] = True
+                out["where"].append("llvm-output:" + "+".join(fns))
         elif asan["status"] == "ok":
             outputs_c.append(asan["output"])
             o = dict(asan["output"])
@@ -69,9 +86,25 @@ def confirm(rec, families):
     return out
 
 
+def _c05_filter(tasks):
+    """Format-sweep requests (cheap copy kernels added for output-format coverage) run the evaluate
+    program only; the fixed list runs both programs."""
+    from .. import corpus
+
+    sweep = corpus.sweep_keys()
+    out = []
+    for t in tasks:
+        key = Request.make(t["assignment"], t["formats"]).key()
+        if key in sweep and t.get("program") != "evaluate" and os.environ.get("VERIF_TIER_FULL") != "1":
+            continue
+        out.append(t)
+    return out
+
+
 def run_c05(tier):
     variants = [{"mode": "c05", "program": "evaluate"}, {"mode": "c05", "program": "assemble+compute"}]
     return keval.run("C05", tier, families=["safety", "handback"], worker=kprog.run_task, variants=variants,
+                     task_filter=_c05_filter if tier == "quick" else None,
                      confirm_fn=confirm, validate=False, functions=FUNCS, validator=validate_asan,
                      extra_assumptions=["element counts fit int32 (dimensions <= D)",
                                         "allocation failure is not modelled",
@@ -81,10 +114,13 @@ def run_c05(tier):
 def run_c04(tier):
     variants = [{"mode": "c04", "program": None}]
     return keval.run("C04", tier, families=["mismatch"], worker=kprog.run_task, variants=variants,
-                     confirm_fn=confirm, validate=False, functions=FUNCS, validator=validate_asan,
+                     confirm_fn=confirm, validate=False, functions=FUNCS, validator=validate_asan, quick_corpus="core",
                      extra_assumptions=["history = assemble once, compute, compute again with re-valued inputs of the same "
                                         "structure (one re-run; compute reads no state of a previous compute: checked by "
                                         "comparing the second result with the specification of the new values)"])
+
+
+C16_THOROUGH_ONLY = {"A(i,j) = B(i,j) + C(i,j) + D(i,j)", "a(i) = b(i) + c(i) + d(i) + e(i)"}
 
 
 def _c16_tasks(tasks):
@@ -101,6 +137,8 @@ def _c16_tasks(tasks):
         el = cache[key]
         if not el:
             continue
+        if t["assignment"] in C16_THOROUGH_ONLY and not t.get("_thorough"):
+            continue  # > 6000 paths with a free dimension: thorough tier only
         dv = {k: v for k, v in t["dimvec"].items() if k not in el}
         k2 = (key, tuple(sorted(dv.items())))
         if k2 in seen:
@@ -164,7 +202,7 @@ def confirm_c16(rec, families):
 
 
 def run_c16(tier):
-    variants = [{"mode": "c16", "program": "evaluate"}]
+    variants = [{"mode": "c16", "program": "evaluate", "_thorough": tier != "quick"}]
     return keval.run("C16", tier, families=["work"], worker=kprog.run_task, variants=variants,
                      confirm_fn=confirm_c16, validate=False, functions=FUNCS, task_filter=_c16_tasks,
                      extra_assumptions=["the sparse-only dimension is a free integer in [0, 2^31-1]; if every path condition is "
@@ -208,6 +246,11 @@ def validate_asan(results, limit):
                 break
             if not judge.same_raw(ir["output"], asan["output"]):
                 problems.append(f"IR machine and compiled C disagree on a witness: {req.key()} {fns} {ir['output']} vs {asan['output']}")
+                ok = False
+                break
+            asl = replay.asan_run_llvm(comp, fns, w)
+            if asl["status"] != "ok" or not judge.same_raw(ir["output"], asl["output"]):
+                problems.append(f"IR machine and clang-compiled LLVM module disagree on a witness: {req.key()} {fns} {asl.get('status')} {asl.get('stderr', '')[-200:]}")
                 ok = False
                 break
             outs.append(asan["output"])
